@@ -1,0 +1,24 @@
+//go:build verif
+
+package cache
+
+// Additional verification hooks for the eviction / cleanup checks (build tag
+// "verif" only).
+
+// VerifMaxCacheSize returns the size limit the store path currently uses
+// (the value last delivered to the max_cache_size listener), without the
+// memory cap applied.
+func (c *MemoryCache[M]) VerifMaxCacheSize() int64 { return c.maxCacheSize.Get() }
+
+// VerifMaxCacheSize returns the size limit the store path currently uses.
+func (c *FileCache[M]) VerifMaxCacheSize() int64 { return c.maxCacheSize.Get() }
+
+// VerifMemoryCap returns the memory cap the store path currently uses.
+func (c *MemoryCache[M]) VerifMemoryCap() int64 {
+	c.mu.RLock()
+	defer c.mu.RUnlock()
+	return c.memoryCap
+}
+
+// VerifMemoryCap: the file backend has no memory cap; -1 means "none".
+func (c *FileCache[M]) VerifMemoryCap() int64 { return -1 }
